@@ -78,8 +78,54 @@ impl DynKind {
     }
 }
 
-pub trait Dyn: DynamicSolver<usize> + CredulousAcceptanceComputer<usize> + SkepticalAcceptanceComputer<usize> {}
-impl<T: DynamicSolver<usize> + CredulousAcceptanceComputer<usize> + SkepticalAcceptanceComputer<usize>> Dyn for T {}
+/// The label type of the dynamic solvers under test: a number whose `Hash` is, for one case in three,
+/// much coarser than its `Eq` (legal for `LabelType`), so that distinct labels collide in every hash table.
+#[derive(Clone, Copy, Debug, PartialEq, Eq, PartialOrd, Ord)]
+pub struct DL(pub usize);
+
+thread_local! {
+    static COARSE_HASH: std::cell::Cell<bool> = const { std::cell::Cell::new(false) };
+}
+
+/// Fixed for the duration of a case (a hash function must not change while a table lives).
+pub struct CoarseScope(bool);
+impl CoarseScope {
+    pub fn enter(on: bool) -> CoarseScope {
+        CoarseScope(COARSE_HASH.with(|c| c.replace(on)))
+    }
+    /// One case in three, by a hash of its serialised form.
+    pub fn for_case<C: serde::Serialize>(case: &C) -> (CoarseScope, bool) {
+        use std::hash::{Hash, Hasher};
+        let mut h = std::collections::hash_map::DefaultHasher::new();
+        serde_json::to_string(case).unwrap().hash(&mut h);
+        let on = (h.finish() >> 20) % 3 == 0;
+        (CoarseScope::enter(on), on)
+    }
+}
+impl Drop for CoarseScope {
+    fn drop(&mut self) {
+        COARSE_HASH.with(|c| c.set(self.0));
+    }
+}
+
+impl std::hash::Hash for DL {
+    fn hash<H: std::hash::Hasher>(&self, state: &mut H) {
+        if COARSE_HASH.with(|c| c.get()) {
+            state.write_u8((self.0 % 3) as u8);
+        } else {
+            state.write_usize(self.0);
+        }
+    }
+}
+
+impl std::fmt::Display for DL {
+    fn fmt(&self, f: &mut std::fmt::Formatter<'_>) -> std::fmt::Result {
+        write!(f, "{}", self.0)
+    }
+}
+
+pub trait Dyn: DynamicSolver<DL> + CredulousAcceptanceComputer<DL> + SkepticalAcceptanceComputer<DL> {}
+impl<T: DynamicSolver<DL> + CredulousAcceptanceComputer<DL> + SkepticalAcceptanceComputer<DL>> Dyn for T {}
 
 pub fn make(kind: DynKind, factor: f64, shared: &std::rc::Rc<Shared>) -> Box<dyn Dyn> {
     let f = || satwrap::factory(shared);
@@ -87,28 +133,28 @@ pub fn make(kind: DynKind, factor: f64, shared: &std::rc::Rc<Shared>) -> Box<dyn
         ($c:ident, $s:ident) => {{
             let sc = std::rc::Rc::clone(shared);
             let ss = std::rc::Rc::clone(shared);
-            Box::new(DummyDynamicConstraintsEncoder::<usize>::new(
+            Box::new(DummyDynamicConstraintsEncoder::<DL>::new(
                 Some(Box::new(move |af| Box::new($c::new_with_sat_solver_factory(af, satwrap::factory(&sc))))),
                 Some(Box::new(move |af| Box::new($s::new_with_sat_solver_factory(af, satwrap::factory(&ss))))),
             ))
         }};
     }
     match kind {
-        DynKind::Co => Box::new(DynamicCompleteSemanticsSolver::<usize>::new_with_sat_solver_factory(f())),
-        DynKind::St => Box::new(DynamicStableSemanticsSolver::<usize>::new_with_sat_solver_factory(f())),
-        DynKind::Pr => Box::new(DynamicPreferredSemanticsSolver::<usize>::new_with_sat_solver_factory(f())),
+        DynKind::Co => Box::new(DynamicCompleteSemanticsSolver::<DL>::new_with_sat_solver_factory(f())),
+        DynKind::St => Box::new(DynamicStableSemanticsSolver::<DL>::new_with_sat_solver_factory(f())),
+        DynKind::Pr => Box::new(DynamicPreferredSemanticsSolver::<DL>::new_with_sat_solver_factory(f())),
         DynKind::CoAtt => {
-            Box::new(DynamicCompleteSemanticsSolverAttacks::<usize>::new_with_sat_solver_factory_and_arg_factor(f(), factor))
+            Box::new(DynamicCompleteSemanticsSolverAttacks::<DL>::new_with_sat_solver_factory_and_arg_factor(f(), factor))
         }
         DynKind::StAtt => {
-            Box::new(DynamicStableSemanticsSolverAttacks::<usize>::new_with_sat_solver_factory_and_arg_factor(f(), factor))
+            Box::new(DynamicStableSemanticsSolverAttacks::<DL>::new_with_sat_solver_factory_and_arg_factor(f(), factor))
         }
         DynKind::DummyCoPr => dummy!(CompleteSemanticsSolver, PreferredSemanticsSolver),
         DynKind::DummySt => dummy!(StableSemanticsSolver, StableSemanticsSolver),
         DynKind::DummySst => dummy!(SemiStableSemanticsSolver, SemiStableSemanticsSolver),
         DynKind::DummyStg => dummy!(StageSemanticsSolver, StageSemanticsSolver),
         DynKind::DummyId => dummy!(IdealSemanticsSolver, IdealSemanticsSolver),
-        DynKind::DummyGr => Box::new(DummyDynamicConstraintsEncoder::<usize>::new(
+        DynKind::DummyGr => Box::new(DummyDynamicConstraintsEncoder::<DL>::new(
             Some(Box::new(|af| Box::new(GroundedSemanticsSolver::new(af)))),
             Some(Box::new(|af| Box::new(GroundedSemanticsSolver::new(af)))),
         )),
@@ -311,28 +357,28 @@ pub fn apply_valid(s: &mut Box<dyn Dyn>, m: &mut Model, op: &OpT, kind: DynKind)
     let fail = |what: &str, e: String| Failure::new(format!("C17/lib-dynamic/{:?}/{}-error", kind, what), e);
     match step {
         Step::NewArg(l) => {
-            s.new_argument(l);
+            s.new_argument(DL(l));
             m.live.insert(l);
         }
         Step::RemArg(l) => {
-            s.remove_argument(&l).map_err(|e| fail("remove_argument", e.to_string()))?;
+            s.remove_argument(&DL(l)).map_err(|e| fail("remove_argument", e.to_string()))?;
             m.live.remove(&l);
             m.atts.retain(|(a, b)| *a != l && *b != l);
         }
         Step::NewAtt(a, b) => {
-            s.new_attack(&a, &b).map_err(|e| fail("new_attack", e.to_string()))?;
+            s.new_attack(&DL(a), &DL(b)).map_err(|e| fail("new_attack", e.to_string()))?;
             m.atts.insert((a, b));
         }
         Step::RemAtt(a, b) => {
-            s.remove_attack(&a, &b).map_err(|e| fail("remove_attack", e.to_string()))?;
+            s.remove_attack(&DL(a), &DL(b)).map_err(|e| fail("remove_attack", e.to_string()))?;
             m.atts.remove(&(a, b));
         }
         Step::Inflate(k) => {
             for j in 0..k {
-                s.new_argument(1_000 + j);
+                s.new_argument(DL(1_000 + j));
             }
             for j in 0..k {
-                s.remove_argument(&(1_000 + j)).map_err(|e| fail("remove_argument", e.to_string()))?;
+                s.remove_argument(&DL(1_000 + j)).map_err(|e| fail("remove_argument", e.to_string()))?;
             }
         }
         Step::DC(a, cert) => Dynamic { faults: false }.query_inner(s, m, kind, a, true, cert, "", false)?,
@@ -396,15 +442,15 @@ impl Dynamic {
         let run_it = |s: &mut Box<dyn Dyn>| {
             if cert {
                 let (b, c) = if cred {
-                    s.is_credulously_accepted_with_certificate(&a)
+                    s.is_credulously_accepted_with_certificate(&DL(a))
                 } else {
-                    s.is_skeptically_accepted_with_certificate(&a)
+                    s.is_skeptically_accepted_with_certificate(&DL(a))
                 };
-                (b, Some(c.map(|v| v.iter().map(|x| *x.label()).collect::<Vec<usize>>())))
+                (b, Some(c.map(|v| v.iter().map(|x| x.label().0).collect::<Vec<usize>>())))
             } else if cred {
-                (s.is_credulously_accepted(&a), None)
+                (s.is_credulously_accepted(&DL(a)), None)
             } else {
-                (s.is_skeptically_accepted(&a), None)
+                (s.is_skeptically_accepted(&DL(a)), None)
             }
         };
         let r = if guarded { guard(|| run_it(s)) } else { Ok(run_it(s)) };
@@ -557,6 +603,10 @@ impl Prop for Dynamic {
         if chosen {
             rec.class("sat-backend-returns-chosen-models");
         }
+        let (_hscope, coarse) = CoarseScope::for_case(case);
+        if coarse {
+            rec.class("labels-with-coarse-hash");
+        }
         let mut s = match guard(|| make(kind, factor, &shared)) {
             Ok(s) => s,
             Err(p) => return Err(Failure::new(format!("{}/{:?}/constructor-panic", self.pid(), kind), p)),
@@ -595,7 +645,7 @@ impl Prop for Dynamic {
             match step {
                 Step::NewArg(l) => {
                     upd("new_argument", guard(|| {
-                        s.new_argument(l);
+                        s.new_argument(DL(l));
                         Ok::<(), String>(())
                     }), true)?;
                     if ever_live.contains(&l) {
@@ -610,7 +660,7 @@ impl Prop for Dynamic {
                     pending_invalid.iter_mut().for_each(|p| p.0 = true);
                 }
                 Step::RemArg(l) => {
-                    upd("remove_argument", guard(|| s.remove_argument(&l).map_err(|e| e.to_string())), true)?;
+                    upd("remove_argument", guard(|| s.remove_argument(&DL(l)).map_err(|e| e.to_string())), true)?;
                     m.live.remove(&l);
                     m.atts.retain(|(a, b)| *a != l && *b != l);
                     if seen_query {
@@ -618,11 +668,11 @@ impl Prop for Dynamic {
                     }
                 }
                 Step::NewAtt(a, b) => {
-                    upd("new_attack", guard(|| s.new_attack(&a, &b).map_err(|e| e.to_string())), true)?;
+                    upd("new_attack", guard(|| s.new_attack(&DL(a), &DL(b)).map_err(|e| e.to_string())), true)?;
                     m.atts.insert((a, b));
                 }
                 Step::RemAtt(a, b) => {
-                    upd("remove_attack", guard(|| s.remove_attack(&a, &b).map_err(|e| e.to_string())), true)?;
+                    upd("remove_attack", guard(|| s.remove_attack(&DL(a), &DL(b)).map_err(|e| e.to_string())), true)?;
                     m.atts.remove(&(a, b));
                     if seen_query {
                         removal_after_query = true;
@@ -658,13 +708,13 @@ impl Prop for Dynamic {
                     for j in 0..k {
                         let l = 1_000 + j;
                         upd("new_argument", guard(|| {
-                            s.new_argument(l);
+                            s.new_argument(DL(l));
                             Ok::<(), String>(())
                         }), true)?;
                     }
                     for j in 0..k {
                         let l = 1_000 + j;
-                        upd("remove_argument", guard(|| s.remove_argument(&l).map_err(|e| e.to_string())), true)?;
+                        upd("remove_argument", guard(|| s.remove_argument(&DL(l)).map_err(|e| e.to_string())), true)?;
                     }
                     if seen_query {
                         removal_after_query = true;
@@ -672,25 +722,25 @@ impl Prop for Dynamic {
                 }
                 Step::RedundantNewArg(l) => {
                     upd("redundant-new_argument", guard(|| {
-                        s.new_argument(l);
+                        s.new_argument(DL(l));
                         Ok::<(), String>(())
                     }), true)?;
                     pending_redundant.push((false, false));
                 }
                 Step::RedundantNewAtt(a, b) => {
-                    upd("redundant-new_attack", guard(|| s.new_attack(&a, &b).map_err(|e| e.to_string())), true)?;
+                    upd("redundant-new_attack", guard(|| s.new_attack(&DL(a), &DL(b)).map_err(|e| e.to_string())), true)?;
                     pending_redundant.push((false, false));
                 }
                 Step::InvalidRemArg(l) => {
-                    upd("remove_argument-unknown", guard(|| s.remove_argument(&l).map_err(|e| e.to_string())), false)?;
+                    upd("remove_argument-unknown", guard(|| s.remove_argument(&DL(l)).map_err(|e| e.to_string())), false)?;
                     pending_invalid.push((false, false));
                 }
                 Step::InvalidNewAtt(a, b) => {
-                    upd("new_attack-unknown-argument", guard(|| s.new_attack(&a, &b).map_err(|e| e.to_string())), false)?;
+                    upd("new_attack-unknown-argument", guard(|| s.new_attack(&DL(a), &DL(b)).map_err(|e| e.to_string())), false)?;
                     pending_invalid.push((false, false));
                 }
                 Step::InvalidRemAtt(a, b) => {
-                    upd("remove_attack-absent", guard(|| s.remove_attack(&a, &b).map_err(|e| e.to_string())), false)?;
+                    upd("remove_attack-absent", guard(|| s.remove_attack(&DL(a), &DL(b)).map_err(|e| e.to_string())), false)?;
                     pending_invalid.push((false, false));
                 }
             }
